@@ -10,7 +10,7 @@ from vv.core import Result, exc_violation, innermost_is_harness
 from vv.util import deq, getp, put, tree_leaves
 
 ID = 'C11'
-CASES = {'quick': 250, 'thorough': 4000}
+CASES = {'quick': 600, 'thorough': 40000}
 RULE = ('Hypothesis draws a mother compartment with 1..6 variables at depth '
         '1..3, each with a divider and a value from that divider\'s domain: set '
         '(int, float, str, list, dict, array), split (odd/even/zero/large ints '
